@@ -16,6 +16,7 @@ import PsModel.Config
 import PsModel.IteratorC
 import PsModel.Calculator
 import PsModel.CmdLine
+import PsModel.Wheel
 
 open Ps
 
@@ -485,6 +486,53 @@ def cliLine (op : String) : String :=
       | .error _ => summarize 1 []
   | _ => "bad-op"
 
+/-! ### wheel / cross streams (sieve chain) -/
+
+def wheelLine (op : String) : String :=
+  match (op.splitOn " ").filter (· ≠ "") with
+  | ["wheel", m, p, l, st] =>
+    match p.toNat?, l.toNat?, st.toNat? with
+    | some p, some l, some st =>
+      let r := if m = "30" then Wheel.addSievingPrime 30 8 Gen.wheel30Init st p l
+               else Wheel.addSievingPrime 210 48 Gen.wheel210Init st p l
+      match r with
+      | none => "none"
+      | some s => s!"sp={s.sp} idx={s.idx} w={s.w}"
+    | _, _, _ => "bad-op"
+  | _ => "bad-op"
+
+/-- cross off one sieving prime over `nseg` segments of `S` bytes: the numbers whose bits are
+    cleared, in (segment, byte, bit) order like the harness reads them.  `big` uses step210 on
+    a linear index (segment = idx >> log2 S, idx & (S-1) in the code). -/
+def crossNumbers (big : Bool) (rows : List (Nat × Nat × Nat)) (s0 : Wheel.SP) (low S nseg : Nat) : List Nat := Id.run do
+  let total := S * nseg
+  let mut s := s0
+  let mut out : Array (Nat × Nat) := #[]      -- (byte index over all segments, bit)
+  let mut fuel := total * 8 + 8
+  while s.idx < total ∧ fuel > 0 do
+    let r := if big then Wheel.step210 s else Wheel.step30 rows s
+    out := out.push (s.idx, r.1)
+    s := r.2
+    fuel := fuel - 1
+  let sorted := out.qsort (fun a b => a.1 < b.1 ∨ (a.1 = b.1 ∧ a.2 < b.2))
+  return sorted.toList.map (fun x => low + 30 * x.1 + Wheel.offs.getD x.2 0)
+
+def crossLine (op : String) : String :=
+  match (op.splitOn " ").filter (· ≠ "") with
+  | ["cross", alg, p, l, st, sz, ns, _l1] =>
+    match p.toNat?, l.toNat?, st.toNat?, sz.toNat?, ns.toNat? with
+    | some p, some l, some st, some sz, some ns =>
+      let big := alg = "big"
+      let r := if big then Wheel.addSievingPrime 210 48 Gen.wheel210Init st p l
+               else Wheel.addSievingPrime 30 8 Gen.wheel30Init st p l
+      let nums := match r with
+        | none => []
+        | some s => crossNumbers big (if alg = "small" then Gen.eratSmallRows else Gen.eratMediumRows) s l sz ns
+      let text := String.join (nums.map (fun n => toString n ++ ","))
+      s!"n={nums.length} fnv={fnv1a text}"
+    | _, _, _, _, _ => "bad-op"
+  | _ => "bad-op"
+
 partial def lineLoop (h : IO.FS.Stream) (f : String → String) : IO Unit := do
   let line ← h.getLine
   if line.isEmpty then return ()
@@ -509,6 +557,8 @@ def main (args : List String) : IO UInt32 := do
     | "multi" => multiLoop s (Array.replicate 8 (Iter.mk' 0 umax)); return 0
     | "iterc" => itercLoop s CIter.init; return 0
     | "calc" => lineLoop s calcLine; return 0
+    | "wheel" => lineLoop s wheelLine; return 0
+    | "cross" => lineLoop s crossLine; return 0
     | "cli" => lineLoop s cliLine; return 0
     | "fiter" => fiterLoop s (Iter.mk' 0 umax); return 0
     | "bench" =>
